@@ -2,7 +2,7 @@ CONSTANTS
   Nodes <- Nodes4
   MaxKids = 3
   Alias = FALSE
-  Options <- GOpts
+  Options <- DOpts
 SPECIFICATION Spec
 CHECK_DEADLOCK FALSE
-INVARIANTS OutHasNoRepeats OnceMeansNoRepeatedLoads BudgetRespected
+INVARIANT Emit
